@@ -199,3 +199,114 @@ func zeroOf(sort string) Term {
 	}
 	panic("zeroOf: " + sort)
 }
+
+// sexprChildren splits "(f a b c)" into ["f","a","b","c"]; ok=false if s is an atom.
+func sexprChildren(s string) ([]string, bool) {
+	if len(s) < 2 || s[0] != '(' || s[len(s)-1] != ')' {
+		return nil, false
+	}
+	body := s[1 : len(s)-1]
+	var out []string
+	depth := 0
+	start := -1
+	inBar := false
+	for i := 0; i < len(body); i++ {
+		ch := body[i]
+		if inBar {
+			if ch == '|' {
+				inBar = false
+			}
+			continue
+		}
+		switch ch {
+		case '|':
+			inBar = true
+			if start < 0 {
+				start = i
+			}
+		case '(':
+			if depth == 0 && start < 0 {
+				start = i
+			}
+			depth++
+		case ')':
+			depth--
+			if depth == 0 && start >= 0 && body[start] == '(' {
+				out = append(out, body[start:i+1])
+				start = -1
+			}
+		case ' ', '\n', '\t':
+			if depth == 0 && start >= 0 {
+				out = append(out, body[start:i])
+				start = -1
+			}
+		default:
+			if start < 0 {
+				start = i
+			}
+		}
+	}
+	if start >= 0 {
+		out = append(out, body[start:])
+	}
+	return out, true
+}
+
+// splitGoal breaks a goal into conjuncts: (and ..), (=> p (and ..)), (ite c a b).
+func splitGoal(g Term, limit int) []Term {
+	if limit <= 0 {
+		return []Term{g}
+	}
+	ch, ok := sexprChildren(g.S)
+	if !ok || len(ch) == 0 {
+		return []Term{g}
+	}
+	switch ch[0] {
+	case "and":
+		// a && b && c  ==>  a ; a => b ; a && b => c   (earlier conjuncts may be used for later ones)
+		var out []Term
+		var prem []Term
+		var flat []string
+		var fl func(cs []string)
+		fl = func(cs []string) {
+			for _, c := range cs {
+				if cc, ok := sexprChildren(c); ok && len(cc) > 0 && cc[0] == "and" {
+					fl(cc[1:])
+				} else {
+					flat = append(flat, c)
+				}
+			}
+		}
+		fl(ch[1:])
+		for _, c := range flat {
+			for _, g := range splitGoal(Term{c, SBool}, limit-1) {
+				out = append(out, tImplies(tAnd(prem...), g))
+			}
+			if !strings.Contains(c, "(forall ") && !strings.Contains(c, "(exists ") && len(c) < 400 {
+				prem = append(prem, Term{c, SBool})
+			}
+		}
+		return out
+	case "=>":
+		if len(ch) == 3 {
+			var out []Term
+			for _, c := range splitGoal(Term{ch[2], SBool}, limit-1) {
+				out = append(out, tImplies(Term{ch[1], SBool}, c))
+			}
+			return out
+		}
+	case "ite":
+		if len(ch) == 4 {
+			var out []Term
+			c := Term{ch[1], SBool}
+			for _, x := range splitGoal(Term{ch[2], SBool}, limit-1) {
+				out = append(out, tImplies(c, x))
+			}
+			for _, x := range splitGoal(Term{ch[3], SBool}, limit-1) {
+				out = append(out, tImplies(tNot(c), x))
+			}
+			return out
+		}
+	}
+	return []Term{g}
+}
